@@ -25,12 +25,16 @@ Definition hostid := nat.
 Inductive dial := DRefused | DHang | DConnect (i : nat).
 
 Inductive vkind :=
-| VOk | VWrongId | VBadTag | VBadSig | VAuth | VInvalid | VGarbage | VPeerClose | VPeerReset | VHttp4xx.
+| VOk | VWrongId | VBadTag | VBadSig | VAuth | VInvalid | VGarbage | VPeerClose | VPeerReset | VHttp4xx
+| VOkFin | VOkRst.   (* answers ok, then closes (FIN) / resets (RST) the connection delta ticks into connection_made(True) *)
 
 Inductive vclass := KOk | KWrong | KAuth | KOther.
+(* scripted loss of the connection inside the connector's connection_made(True) window: Some reset *)
+Definition loss_of (k : vkind) : option bool :=
+  match k with VOkFin => Some false | VOkRst => Some true | _ => None end.
 Definition vclass_of (k : vkind) : vclass :=
   match k with
-  | VOk => KOk | VWrongId => KWrong | VAuth => KAuth
+  | VOk | VOkFin | VOkRst => KOk | VWrongId => KWrong | VAuth => KAuth
   | _ => KOther     (* HomeKitException subclasses and foreign exceptions: retried with back-off *)
   end.
 
@@ -82,34 +86,36 @@ Record st := mk_st {
   now : N;
   subs : bool;
   supsub : bool;
+  ploss : option bool;
   tie : bool;
   fuel_out : bool;
   adv_out : bool;
   trace : list (N * ev)
 }.
-Definition set_hosts (v : list hostid) (s : st) : st := {| hosts := v; desc := desc s; excl := excl s; closing := closing s; shut := shut s; cur := cur s; secure := secure s; ph := ph s; nfail := nfail s; imm := imm s; ntasks := ntasks s; opn := opn s; waiters := waiters s; dials := dials s; verifs := verifs s; nextcid := nextcid s; now := now s; subs := subs s; supsub := supsub s; tie := tie s; fuel_out := fuel_out s; adv_out := adv_out s; trace := trace s |}.
-Definition set_desc (v : list hostid) (s : st) : st := {| hosts := hosts s; desc := v; excl := excl s; closing := closing s; shut := shut s; cur := cur s; secure := secure s; ph := ph s; nfail := nfail s; imm := imm s; ntasks := ntasks s; opn := opn s; waiters := waiters s; dials := dials s; verifs := verifs s; nextcid := nextcid s; now := now s; subs := subs s; supsub := supsub s; tie := tie s; fuel_out := fuel_out s; adv_out := adv_out s; trace := trace s |}.
-Definition set_excl (v : list hostid) (s : st) : st := {| hosts := hosts s; desc := desc s; excl := v; closing := closing s; shut := shut s; cur := cur s; secure := secure s; ph := ph s; nfail := nfail s; imm := imm s; ntasks := ntasks s; opn := opn s; waiters := waiters s; dials := dials s; verifs := verifs s; nextcid := nextcid s; now := now s; subs := subs s; supsub := supsub s; tie := tie s; fuel_out := fuel_out s; adv_out := adv_out s; trace := trace s |}.
-Definition set_closing (v : bool) (s : st) : st := {| hosts := hosts s; desc := desc s; excl := excl s; closing := v; shut := shut s; cur := cur s; secure := secure s; ph := ph s; nfail := nfail s; imm := imm s; ntasks := ntasks s; opn := opn s; waiters := waiters s; dials := dials s; verifs := verifs s; nextcid := nextcid s; now := now s; subs := subs s; supsub := supsub s; tie := tie s; fuel_out := fuel_out s; adv_out := adv_out s; trace := trace s |}.
-Definition set_shut (v : bool) (s : st) : st := {| hosts := hosts s; desc := desc s; excl := excl s; closing := closing s; shut := v; cur := cur s; secure := secure s; ph := ph s; nfail := nfail s; imm := imm s; ntasks := ntasks s; opn := opn s; waiters := waiters s; dials := dials s; verifs := verifs s; nextcid := nextcid s; now := now s; subs := subs s; supsub := supsub s; tie := tie s; fuel_out := fuel_out s; adv_out := adv_out s; trace := trace s |}.
-Definition set_cur (v : option cid) (s : st) : st := {| hosts := hosts s; desc := desc s; excl := excl s; closing := closing s; shut := shut s; cur := v; secure := secure s; ph := ph s; nfail := nfail s; imm := imm s; ntasks := ntasks s; opn := opn s; waiters := waiters s; dials := dials s; verifs := verifs s; nextcid := nextcid s; now := now s; subs := subs s; supsub := supsub s; tie := tie s; fuel_out := fuel_out s; adv_out := adv_out s; trace := trace s |}.
-Definition set_secure (v : bool) (s : st) : st := {| hosts := hosts s; desc := desc s; excl := excl s; closing := closing s; shut := shut s; cur := cur s; secure := v; ph := ph s; nfail := nfail s; imm := imm s; ntasks := ntasks s; opn := opn s; waiters := waiters s; dials := dials s; verifs := verifs s; nextcid := nextcid s; now := now s; subs := subs s; supsub := supsub s; tie := tie s; fuel_out := fuel_out s; adv_out := adv_out s; trace := trace s |}.
-Definition set_ph (v : phase) (s : st) : st := {| hosts := hosts s; desc := desc s; excl := excl s; closing := closing s; shut := shut s; cur := cur s; secure := secure s; ph := v; nfail := nfail s; imm := imm s; ntasks := ntasks s; opn := opn s; waiters := waiters s; dials := dials s; verifs := verifs s; nextcid := nextcid s; now := now s; subs := subs s; supsub := supsub s; tie := tie s; fuel_out := fuel_out s; adv_out := adv_out s; trace := trace s |}.
-Definition set_nfail (v : nat) (s : st) : st := {| hosts := hosts s; desc := desc s; excl := excl s; closing := closing s; shut := shut s; cur := cur s; secure := secure s; ph := ph s; nfail := v; imm := imm s; ntasks := ntasks s; opn := opn s; waiters := waiters s; dials := dials s; verifs := verifs s; nextcid := nextcid s; now := now s; subs := subs s; supsub := supsub s; tie := tie s; fuel_out := fuel_out s; adv_out := adv_out s; trace := trace s |}.
-Definition set_imm (v : nat) (s : st) : st := {| hosts := hosts s; desc := desc s; excl := excl s; closing := closing s; shut := shut s; cur := cur s; secure := secure s; ph := ph s; nfail := nfail s; imm := v; ntasks := ntasks s; opn := opn s; waiters := waiters s; dials := dials s; verifs := verifs s; nextcid := nextcid s; now := now s; subs := subs s; supsub := supsub s; tie := tie s; fuel_out := fuel_out s; adv_out := adv_out s; trace := trace s |}.
-Definition set_ntasks (v : nat) (s : st) : st := {| hosts := hosts s; desc := desc s; excl := excl s; closing := closing s; shut := shut s; cur := cur s; secure := secure s; ph := ph s; nfail := nfail s; imm := imm s; ntasks := v; opn := opn s; waiters := waiters s; dials := dials s; verifs := verifs s; nextcid := nextcid s; now := now s; subs := subs s; supsub := supsub s; tie := tie s; fuel_out := fuel_out s; adv_out := adv_out s; trace := trace s |}.
-Definition set_opn (v : list cid) (s : st) : st := {| hosts := hosts s; desc := desc s; excl := excl s; closing := closing s; shut := shut s; cur := cur s; secure := secure s; ph := ph s; nfail := nfail s; imm := imm s; ntasks := ntasks s; opn := v; waiters := waiters s; dials := dials s; verifs := verifs s; nextcid := nextcid s; now := now s; subs := subs s; supsub := supsub s; tie := tie s; fuel_out := fuel_out s; adv_out := adv_out s; trace := trace s |}.
-Definition set_waiters (v : list (nat * N)) (s : st) : st := {| hosts := hosts s; desc := desc s; excl := excl s; closing := closing s; shut := shut s; cur := cur s; secure := secure s; ph := ph s; nfail := nfail s; imm := imm s; ntasks := ntasks s; opn := opn s; waiters := v; dials := dials s; verifs := verifs s; nextcid := nextcid s; now := now s; subs := subs s; supsub := supsub s; tie := tie s; fuel_out := fuel_out s; adv_out := adv_out s; trace := trace s |}.
-Definition set_dials (v : list dial) (s : st) : st := {| hosts := hosts s; desc := desc s; excl := excl s; closing := closing s; shut := shut s; cur := cur s; secure := secure s; ph := ph s; nfail := nfail s; imm := imm s; ntasks := ntasks s; opn := opn s; waiters := waiters s; dials := v; verifs := verifs s; nextcid := nextcid s; now := now s; subs := subs s; supsub := supsub s; tie := tie s; fuel_out := fuel_out s; adv_out := adv_out s; trace := trace s |}.
-Definition set_verifs (v : list (vkind * N * N)) (s : st) : st := {| hosts := hosts s; desc := desc s; excl := excl s; closing := closing s; shut := shut s; cur := cur s; secure := secure s; ph := ph s; nfail := nfail s; imm := imm s; ntasks := ntasks s; opn := opn s; waiters := waiters s; dials := dials s; verifs := v; nextcid := nextcid s; now := now s; subs := subs s; supsub := supsub s; tie := tie s; fuel_out := fuel_out s; adv_out := adv_out s; trace := trace s |}.
-Definition set_nextcid (v : cid) (s : st) : st := {| hosts := hosts s; desc := desc s; excl := excl s; closing := closing s; shut := shut s; cur := cur s; secure := secure s; ph := ph s; nfail := nfail s; imm := imm s; ntasks := ntasks s; opn := opn s; waiters := waiters s; dials := dials s; verifs := verifs s; nextcid := v; now := now s; subs := subs s; supsub := supsub s; tie := tie s; fuel_out := fuel_out s; adv_out := adv_out s; trace := trace s |}.
-Definition set_now (v : N) (s : st) : st := {| hosts := hosts s; desc := desc s; excl := excl s; closing := closing s; shut := shut s; cur := cur s; secure := secure s; ph := ph s; nfail := nfail s; imm := imm s; ntasks := ntasks s; opn := opn s; waiters := waiters s; dials := dials s; verifs := verifs s; nextcid := nextcid s; now := v; subs := subs s; supsub := supsub s; tie := tie s; fuel_out := fuel_out s; adv_out := adv_out s; trace := trace s |}.
-Definition set_subs (v : bool) (s : st) : st := {| hosts := hosts s; desc := desc s; excl := excl s; closing := closing s; shut := shut s; cur := cur s; secure := secure s; ph := ph s; nfail := nfail s; imm := imm s; ntasks := ntasks s; opn := opn s; waiters := waiters s; dials := dials s; verifs := verifs s; nextcid := nextcid s; now := now s; subs := v; supsub := supsub s; tie := tie s; fuel_out := fuel_out s; adv_out := adv_out s; trace := trace s |}.
-Definition set_supsub (v : bool) (s : st) : st := {| hosts := hosts s; desc := desc s; excl := excl s; closing := closing s; shut := shut s; cur := cur s; secure := secure s; ph := ph s; nfail := nfail s; imm := imm s; ntasks := ntasks s; opn := opn s; waiters := waiters s; dials := dials s; verifs := verifs s; nextcid := nextcid s; now := now s; subs := subs s; supsub := v; tie := tie s; fuel_out := fuel_out s; adv_out := adv_out s; trace := trace s |}.
-Definition set_tie (v : bool) (s : st) : st := {| hosts := hosts s; desc := desc s; excl := excl s; closing := closing s; shut := shut s; cur := cur s; secure := secure s; ph := ph s; nfail := nfail s; imm := imm s; ntasks := ntasks s; opn := opn s; waiters := waiters s; dials := dials s; verifs := verifs s; nextcid := nextcid s; now := now s; subs := subs s; supsub := supsub s; tie := v; fuel_out := fuel_out s; adv_out := adv_out s; trace := trace s |}.
-Definition set_fuel_out (v : bool) (s : st) : st := {| hosts := hosts s; desc := desc s; excl := excl s; closing := closing s; shut := shut s; cur := cur s; secure := secure s; ph := ph s; nfail := nfail s; imm := imm s; ntasks := ntasks s; opn := opn s; waiters := waiters s; dials := dials s; verifs := verifs s; nextcid := nextcid s; now := now s; subs := subs s; supsub := supsub s; tie := tie s; fuel_out := v; adv_out := adv_out s; trace := trace s |}.
-Definition set_adv_out (v : bool) (s : st) : st := {| hosts := hosts s; desc := desc s; excl := excl s; closing := closing s; shut := shut s; cur := cur s; secure := secure s; ph := ph s; nfail := nfail s; imm := imm s; ntasks := ntasks s; opn := opn s; waiters := waiters s; dials := dials s; verifs := verifs s; nextcid := nextcid s; now := now s; subs := subs s; supsub := supsub s; tie := tie s; fuel_out := fuel_out s; adv_out := v; trace := trace s |}.
-Definition set_trace (v : list (N * ev)) (s : st) : st := {| hosts := hosts s; desc := desc s; excl := excl s; closing := closing s; shut := shut s; cur := cur s; secure := secure s; ph := ph s; nfail := nfail s; imm := imm s; ntasks := ntasks s; opn := opn s; waiters := waiters s; dials := dials s; verifs := verifs s; nextcid := nextcid s; now := now s; subs := subs s; supsub := supsub s; tie := tie s; fuel_out := fuel_out s; adv_out := adv_out s; trace := v |}.
+Definition set_hosts (v : list hostid) (s : st) : st := {| hosts := v; desc := desc s; excl := excl s; closing := closing s; shut := shut s; cur := cur s; secure := secure s; ph := ph s; nfail := nfail s; imm := imm s; ntasks := ntasks s; opn := opn s; waiters := waiters s; dials := dials s; verifs := verifs s; nextcid := nextcid s; now := now s; subs := subs s; supsub := supsub s; ploss := ploss s; tie := tie s; fuel_out := fuel_out s; adv_out := adv_out s; trace := trace s |}.
+Definition set_desc (v : list hostid) (s : st) : st := {| hosts := hosts s; desc := v; excl := excl s; closing := closing s; shut := shut s; cur := cur s; secure := secure s; ph := ph s; nfail := nfail s; imm := imm s; ntasks := ntasks s; opn := opn s; waiters := waiters s; dials := dials s; verifs := verifs s; nextcid := nextcid s; now := now s; subs := subs s; supsub := supsub s; ploss := ploss s; tie := tie s; fuel_out := fuel_out s; adv_out := adv_out s; trace := trace s |}.
+Definition set_excl (v : list hostid) (s : st) : st := {| hosts := hosts s; desc := desc s; excl := v; closing := closing s; shut := shut s; cur := cur s; secure := secure s; ph := ph s; nfail := nfail s; imm := imm s; ntasks := ntasks s; opn := opn s; waiters := waiters s; dials := dials s; verifs := verifs s; nextcid := nextcid s; now := now s; subs := subs s; supsub := supsub s; ploss := ploss s; tie := tie s; fuel_out := fuel_out s; adv_out := adv_out s; trace := trace s |}.
+Definition set_closing (v : bool) (s : st) : st := {| hosts := hosts s; desc := desc s; excl := excl s; closing := v; shut := shut s; cur := cur s; secure := secure s; ph := ph s; nfail := nfail s; imm := imm s; ntasks := ntasks s; opn := opn s; waiters := waiters s; dials := dials s; verifs := verifs s; nextcid := nextcid s; now := now s; subs := subs s; supsub := supsub s; ploss := ploss s; tie := tie s; fuel_out := fuel_out s; adv_out := adv_out s; trace := trace s |}.
+Definition set_shut (v : bool) (s : st) : st := {| hosts := hosts s; desc := desc s; excl := excl s; closing := closing s; shut := v; cur := cur s; secure := secure s; ph := ph s; nfail := nfail s; imm := imm s; ntasks := ntasks s; opn := opn s; waiters := waiters s; dials := dials s; verifs := verifs s; nextcid := nextcid s; now := now s; subs := subs s; supsub := supsub s; ploss := ploss s; tie := tie s; fuel_out := fuel_out s; adv_out := adv_out s; trace := trace s |}.
+Definition set_cur (v : option cid) (s : st) : st := {| hosts := hosts s; desc := desc s; excl := excl s; closing := closing s; shut := shut s; cur := v; secure := secure s; ph := ph s; nfail := nfail s; imm := imm s; ntasks := ntasks s; opn := opn s; waiters := waiters s; dials := dials s; verifs := verifs s; nextcid := nextcid s; now := now s; subs := subs s; supsub := supsub s; ploss := ploss s; tie := tie s; fuel_out := fuel_out s; adv_out := adv_out s; trace := trace s |}.
+Definition set_secure (v : bool) (s : st) : st := {| hosts := hosts s; desc := desc s; excl := excl s; closing := closing s; shut := shut s; cur := cur s; secure := v; ph := ph s; nfail := nfail s; imm := imm s; ntasks := ntasks s; opn := opn s; waiters := waiters s; dials := dials s; verifs := verifs s; nextcid := nextcid s; now := now s; subs := subs s; supsub := supsub s; ploss := ploss s; tie := tie s; fuel_out := fuel_out s; adv_out := adv_out s; trace := trace s |}.
+Definition set_ph (v : phase) (s : st) : st := {| hosts := hosts s; desc := desc s; excl := excl s; closing := closing s; shut := shut s; cur := cur s; secure := secure s; ph := v; nfail := nfail s; imm := imm s; ntasks := ntasks s; opn := opn s; waiters := waiters s; dials := dials s; verifs := verifs s; nextcid := nextcid s; now := now s; subs := subs s; supsub := supsub s; ploss := ploss s; tie := tie s; fuel_out := fuel_out s; adv_out := adv_out s; trace := trace s |}.
+Definition set_nfail (v : nat) (s : st) : st := {| hosts := hosts s; desc := desc s; excl := excl s; closing := closing s; shut := shut s; cur := cur s; secure := secure s; ph := ph s; nfail := v; imm := imm s; ntasks := ntasks s; opn := opn s; waiters := waiters s; dials := dials s; verifs := verifs s; nextcid := nextcid s; now := now s; subs := subs s; supsub := supsub s; ploss := ploss s; tie := tie s; fuel_out := fuel_out s; adv_out := adv_out s; trace := trace s |}.
+Definition set_imm (v : nat) (s : st) : st := {| hosts := hosts s; desc := desc s; excl := excl s; closing := closing s; shut := shut s; cur := cur s; secure := secure s; ph := ph s; nfail := nfail s; imm := v; ntasks := ntasks s; opn := opn s; waiters := waiters s; dials := dials s; verifs := verifs s; nextcid := nextcid s; now := now s; subs := subs s; supsub := supsub s; ploss := ploss s; tie := tie s; fuel_out := fuel_out s; adv_out := adv_out s; trace := trace s |}.
+Definition set_ntasks (v : nat) (s : st) : st := {| hosts := hosts s; desc := desc s; excl := excl s; closing := closing s; shut := shut s; cur := cur s; secure := secure s; ph := ph s; nfail := nfail s; imm := imm s; ntasks := v; opn := opn s; waiters := waiters s; dials := dials s; verifs := verifs s; nextcid := nextcid s; now := now s; subs := subs s; supsub := supsub s; ploss := ploss s; tie := tie s; fuel_out := fuel_out s; adv_out := adv_out s; trace := trace s |}.
+Definition set_opn (v : list cid) (s : st) : st := {| hosts := hosts s; desc := desc s; excl := excl s; closing := closing s; shut := shut s; cur := cur s; secure := secure s; ph := ph s; nfail := nfail s; imm := imm s; ntasks := ntasks s; opn := v; waiters := waiters s; dials := dials s; verifs := verifs s; nextcid := nextcid s; now := now s; subs := subs s; supsub := supsub s; ploss := ploss s; tie := tie s; fuel_out := fuel_out s; adv_out := adv_out s; trace := trace s |}.
+Definition set_waiters (v : list (nat * N)) (s : st) : st := {| hosts := hosts s; desc := desc s; excl := excl s; closing := closing s; shut := shut s; cur := cur s; secure := secure s; ph := ph s; nfail := nfail s; imm := imm s; ntasks := ntasks s; opn := opn s; waiters := v; dials := dials s; verifs := verifs s; nextcid := nextcid s; now := now s; subs := subs s; supsub := supsub s; ploss := ploss s; tie := tie s; fuel_out := fuel_out s; adv_out := adv_out s; trace := trace s |}.
+Definition set_dials (v : list dial) (s : st) : st := {| hosts := hosts s; desc := desc s; excl := excl s; closing := closing s; shut := shut s; cur := cur s; secure := secure s; ph := ph s; nfail := nfail s; imm := imm s; ntasks := ntasks s; opn := opn s; waiters := waiters s; dials := v; verifs := verifs s; nextcid := nextcid s; now := now s; subs := subs s; supsub := supsub s; ploss := ploss s; tie := tie s; fuel_out := fuel_out s; adv_out := adv_out s; trace := trace s |}.
+Definition set_verifs (v : list (vkind * N * N)) (s : st) : st := {| hosts := hosts s; desc := desc s; excl := excl s; closing := closing s; shut := shut s; cur := cur s; secure := secure s; ph := ph s; nfail := nfail s; imm := imm s; ntasks := ntasks s; opn := opn s; waiters := waiters s; dials := dials s; verifs := v; nextcid := nextcid s; now := now s; subs := subs s; supsub := supsub s; ploss := ploss s; tie := tie s; fuel_out := fuel_out s; adv_out := adv_out s; trace := trace s |}.
+Definition set_nextcid (v : cid) (s : st) : st := {| hosts := hosts s; desc := desc s; excl := excl s; closing := closing s; shut := shut s; cur := cur s; secure := secure s; ph := ph s; nfail := nfail s; imm := imm s; ntasks := ntasks s; opn := opn s; waiters := waiters s; dials := dials s; verifs := verifs s; nextcid := v; now := now s; subs := subs s; supsub := supsub s; ploss := ploss s; tie := tie s; fuel_out := fuel_out s; adv_out := adv_out s; trace := trace s |}.
+Definition set_now (v : N) (s : st) : st := {| hosts := hosts s; desc := desc s; excl := excl s; closing := closing s; shut := shut s; cur := cur s; secure := secure s; ph := ph s; nfail := nfail s; imm := imm s; ntasks := ntasks s; opn := opn s; waiters := waiters s; dials := dials s; verifs := verifs s; nextcid := nextcid s; now := v; subs := subs s; supsub := supsub s; ploss := ploss s; tie := tie s; fuel_out := fuel_out s; adv_out := adv_out s; trace := trace s |}.
+Definition set_subs (v : bool) (s : st) : st := {| hosts := hosts s; desc := desc s; excl := excl s; closing := closing s; shut := shut s; cur := cur s; secure := secure s; ph := ph s; nfail := nfail s; imm := imm s; ntasks := ntasks s; opn := opn s; waiters := waiters s; dials := dials s; verifs := verifs s; nextcid := nextcid s; now := now s; subs := v; supsub := supsub s; ploss := ploss s; tie := tie s; fuel_out := fuel_out s; adv_out := adv_out s; trace := trace s |}.
+Definition set_supsub (v : bool) (s : st) : st := {| hosts := hosts s; desc := desc s; excl := excl s; closing := closing s; shut := shut s; cur := cur s; secure := secure s; ph := ph s; nfail := nfail s; imm := imm s; ntasks := ntasks s; opn := opn s; waiters := waiters s; dials := dials s; verifs := verifs s; nextcid := nextcid s; now := now s; subs := subs s; supsub := v; ploss := ploss s; tie := tie s; fuel_out := fuel_out s; adv_out := adv_out s; trace := trace s |}.
+Definition set_ploss (v : option bool) (s : st) : st := {| hosts := hosts s; desc := desc s; excl := excl s; closing := closing s; shut := shut s; cur := cur s; secure := secure s; ph := ph s; nfail := nfail s; imm := imm s; ntasks := ntasks s; opn := opn s; waiters := waiters s; dials := dials s; verifs := verifs s; nextcid := nextcid s; now := now s; subs := subs s; supsub := supsub s; ploss := v; tie := tie s; fuel_out := fuel_out s; adv_out := adv_out s; trace := trace s |}.
+Definition set_tie (v : bool) (s : st) : st := {| hosts := hosts s; desc := desc s; excl := excl s; closing := closing s; shut := shut s; cur := cur s; secure := secure s; ph := ph s; nfail := nfail s; imm := imm s; ntasks := ntasks s; opn := opn s; waiters := waiters s; dials := dials s; verifs := verifs s; nextcid := nextcid s; now := now s; subs := subs s; supsub := supsub s; ploss := ploss s; tie := v; fuel_out := fuel_out s; adv_out := adv_out s; trace := trace s |}.
+Definition set_fuel_out (v : bool) (s : st) : st := {| hosts := hosts s; desc := desc s; excl := excl s; closing := closing s; shut := shut s; cur := cur s; secure := secure s; ph := ph s; nfail := nfail s; imm := imm s; ntasks := ntasks s; opn := opn s; waiters := waiters s; dials := dials s; verifs := verifs s; nextcid := nextcid s; now := now s; subs := subs s; supsub := supsub s; ploss := ploss s; tie := tie s; fuel_out := v; adv_out := adv_out s; trace := trace s |}.
+Definition set_adv_out (v : bool) (s : st) : st := {| hosts := hosts s; desc := desc s; excl := excl s; closing := closing s; shut := shut s; cur := cur s; secure := secure s; ph := ph s; nfail := nfail s; imm := imm s; ntasks := ntasks s; opn := opn s; waiters := waiters s; dials := dials s; verifs := verifs s; nextcid := nextcid s; now := now s; subs := subs s; supsub := supsub s; ploss := ploss s; tie := tie s; fuel_out := fuel_out s; adv_out := v; trace := trace s |}.
+Definition set_trace (v : list (N * ev)) (s : st) : st := {| hosts := hosts s; desc := desc s; excl := excl s; closing := closing s; shut := shut s; cur := cur s; secure := secure s; ph := ph s; nfail := nfail s; imm := imm s; ntasks := ntasks s; opn := opn s; waiters := waiters s; dials := dials s; verifs := verifs s; nextcid := nextcid s; now := now s; subs := subs s; supsub := supsub s; ploss := ploss s; tie := tie s; fuel_out := fuel_out s; adv_out := adv_out s; trace := v |}.
 
 Definition TEN_S : N := 40960.
 Definition SIXTY_S : N := 245760.
@@ -186,7 +192,8 @@ Definition verify_done (cont : st -> st) (fhc : nat) (h : hostid) (c : cid) (r :
           else backoff s
       | KOk =>
           let s := set_secure true s in
-          if subs s && supsub s && negb (N.eqb delta 0) then set_ph (PPost c (now s + delta)) s
+          if subs s && supsub s && negb (N.eqb delta 0)
+          then set_ph (PPost c (now s + delta)) (set_ploss (loss_of k) s)
           else finish PDoneOk s
       end
   end.
@@ -365,7 +372,11 @@ Definition fire (x : timer) (s : st) : st :=
       match ph s with
       | PDial rest _ fhc => rounds (attempt_loop (fuel_of s)) fhc rest s
       | PVerify c h fhc r _ => verify_done (attempt_loop (fuel_of s)) fhc h c r s
-      | PPost _ _ => finish PDoneOk s
+      | PPost c _ =>
+          match ploss s with
+          | Some reset => lose_current reset c s      (* the accessory drops the connection instead of answering *)
+          | None => finish PDoneOk s
+          end
       | PSleep _ => attempt s
       | _ => s
       end
@@ -397,7 +408,7 @@ Definition step (tc : N * control) (s : st) : st :=
   apply_control (snd tc) (snap false s).
 
 Definition init (hs : list hostid) (sb : bool) (ds : list dial) (vs : list (vkind * N * N)) : st :=
-  mk_st hs hs [] false false None false PNone 0 0 0 [] [] ds vs 1 0%N sb true false false false [].
+  mk_st hs hs [] false false None false PNone 0 0 0 [] [] ds vs 1 0%N sb true None false false false [].
 
 Definition run (hs : list hostid) (sb : bool) (ds : list dial) (vs : list (vkind * N * N))
            (controls : list (N * control)) (end_ : N) : st :=
